@@ -5,6 +5,7 @@ CONSTANTS
   FetchMax = 2
   HWFallback = FALSE
   ElectAlive = TRUE
+  AllowLag = TRUE
   ElectDown = FALSE
   MaxMsgs = 5
   MaxElect = 3
